@@ -3,7 +3,11 @@
 set -e
 n="$1"
 cd /repo
-git apply --check "/verif/proposed_fixes/$n.diff"
-git apply "/verif/proposed_fixes/$n.diff"
+if git apply --check "/verif/proposed_fixes/$n.diff" 2>/dev/null; then
+  git apply "/verif/proposed_fixes/$n.diff"
+else
+  echo "(git apply failed; using patch with fuzz)"
+  patch -p1 --fuzz=3 --no-backup-if-mismatch < "/verif/proposed_fixes/$n.diff"
+fi
 git commit -qa -F "/verif/proposed_fixes/$n.msg"
 git log --oneline | head -1
